@@ -12,6 +12,7 @@ import (
 	"github.com/git-lfs/git-lfs/v3/lfshttp"
 	"github.com/git-lfs/git-lfs/v3/tools"
 	"github.com/git-lfs/git-lfs/v3/tr"
+	"github.com/git-lfs/git-lfs/v3/verifhook"
 	"github.com/rubyist/tracerx"
 )
 
@@ -78,6 +79,8 @@ func (r *retryCounter) ReadyTime(oid string) time.Time {
 	if delay == 0 || delay > maxDelayMs {
 		delay = maxDelayMs
 	}
+	verifhook.Event("tq.backoff", oid, int64(delay))
+	delay = verifhook.ScaleDelayMs(delay)
 	return time.Now().Add(time.Duration(delay) * time.Millisecond)
 }
 
@@ -156,6 +159,7 @@ func (q *abortableWaitGroup) Add(delta int) {
 	if !q.abort {
 		q.counter += delta
 		q.wq.Add(delta)
+		verifhook.Event("tq.wg.add", "", int64(q.counter))
 	}
 }
 
@@ -165,6 +169,7 @@ func (q *abortableWaitGroup) Done() {
 
 	if !q.abort {
 		q.counter -= 1
+		verifhook.Event("tq.wg.done", "", int64(q.counter))
 		q.wq.Done()
 	}
 }
@@ -174,6 +179,7 @@ func (q *abortableWaitGroup) Abort() {
 	defer q.mu.Unlock()
 
 	q.abort = true
+	verifhook.Event("tq.wg.abort", "", int64(q.counter))
 	q.wq.Add(-q.counter)
 }
 
@@ -386,6 +392,7 @@ func (q *TransferQueue) Add(name, path, oid string, size int64, missing bool, er
 		return
 	}
 
+	verifhook.Yield("tq.Add.beforeIncoming")
 	q.incoming <- t
 }
 
@@ -451,6 +458,7 @@ func (q *TransferQueue) collectBatches() {
 
 			next = append(next, t)
 		}
+		verifhook.Yield("tq.collect.afterFill")
 
 		// Before enqueuing the next batch, sort by descending object
 		// size.
@@ -476,6 +484,7 @@ func (q *TransferQueue) collectBatches() {
 
 		var collected batch
 		collected, closing = q.collectPendingUntil(done)
+		verifhook.Yield("tq.collect.afterPending")
 
 		// If we've encountered a serious error here, abort immediately;
 		// don't process further batches.  Abort the wait queue so that
@@ -543,6 +552,11 @@ func (q *TransferQueue) enqueueAndCollectRetriesFor(batch batch) (batch, error) 
 
 	next := q.makeBatch()
 	tracerx.Printf("tq: sending batch of size %d", len(batch))
+	verifhook.Event("tq.batch", "", int64(len(batch)))
+	for _, vt := range batch {
+		verifhook.Event("tq.batch.obj", vt.Oid, vt.Size)
+	}
+	verifhook.Yield("tq.batch.begin")
 
 	enqueueRetry := func(t *objectTuple, err error, readyTime *time.Time) {
 		count := q.rc.Increment(t.Oid)
@@ -556,6 +570,7 @@ func (q *TransferQueue) enqueueAndCollectRetriesFor(batch batch) (batch, error) 
 			t.ReadyTime = *readyTime
 		}
 		delay := time.Until(t.ReadyTime).Seconds()
+		verifhook.Event("tq.retry", t.Oid, int64(count))
 
 		var errMsg string
 		if err != nil {
@@ -798,6 +813,7 @@ func (q *TransferQueue) handleTransferResult(
 	res TransferResult, retries chan<- *objectTuple,
 ) {
 	oid := res.Transfer.Oid
+	verifhook.Yield("tq.result")
 
 	if res.Error != nil {
 		// If there was an error encountered when processing the
@@ -959,6 +975,8 @@ func (q *TransferQueue) toAdapterCfg(e lfshttp.Endpoint) AdapterConfig {
 // called, Add will no longer add transfers to the queue. Any failed
 // transfers will be automatically retried once.
 func (q *TransferQueue) Wait() {
+	verifhook.Event("tq.wait.begin", "", 0)
+	defer verifhook.Event("tq.wait.end", "", 0)
 	close(q.incoming)
 
 	q.wait.Wait()
